@@ -364,12 +364,14 @@ def run(ctx, replay=None):
     vjobs = [lambda a=a, gl=gl: _validate_abs(ctx, a, gl, impl_hint) for a, gl in by_abs.values()]
     pure_ev = [{"ev": "reset", "id": PURE_ID}] + blocks[PURE_ID]
     # real-time twins and the pure-function trace are handled while TLC validates the replays
-    with ThreadPoolExecutor(max_workers=2) as side:
+    with ThreadPoolExecutor(max_workers=3) as side:
         rt = side.submit(lambda: _realtime(ctx, scripts, blocks, 16 if quick else 32))
+        mm = side.submit(lambda: _marshaler(ctx, rep, scripts, 350 if quick else 4000))
         pu = side.submit(lambda: _pure_validate(ctx, pure_ev))
         # the first configuration alone fixes the matching predicate, the others then try it first
         results = [vjobs[0]()] + _par(vjobs[1:])
         pu.result()
+        mm.result()
         rt_err = None
         try:
             rt.result()
@@ -429,6 +431,44 @@ def _pure(ctx, ov, n):
     _pure_validate(ctx, vf.read_ndjson(tp))
 
 
+DRV_MM = "^TestVerifMarshalerReplay$"
+
+
+def _marshaler(ctx, rep, scripts, n):
+    """a sample of the same histories through two OrbitDBMessageMarshalers (root package, in-package
+    driver, same virtual clock): resolve = Marshal, accept = Unmarshal"""
+    ov = ctx.overlay({".": ["vf_marshaler_verif_test.go"], PKG: [SHIM]}, replace=rep)
+    bygid = {}
+    for s in scripts:
+        bygid.setdefault(s["cfg"]["gid"], []).append(s)
+    pick = []
+    per = max(1, n // max(1, len(bygid)))
+    for gid in sorted(bygid):
+        cand = [s for s in bygid[gid] if _nontrivial(s["steps"])] or bygid[gid]
+        pick.extend(cand if len(cand) <= per else ctx.rng.sample(cand, per))
+    pick.sort(key=lambda s: s["id"])
+    events, _ = vf.run_driver(ctx, ".", DRV_MM, ov, pick, "marshaler", timeout=2400)
+    blocks = dict(vf.split_traces(events))
+    if any(s["id"] not in blocks for s in pick):
+        raise vf.Infra("marshaler driver did not record every script")
+    groups = []
+    for gid in sorted(bygid):
+        ids = [s["id"] for s in pick if s["cfg"]["gid"] == gid]
+        if ids:
+            groups.append(((-1 - gid, blocks[-1 - gid]), [(i, blocks[i]) for i in ids]))
+    acc, rejects = _validate_groups(ctx, groups, "marshaler")
+    ctx.evaluations += len(pick)
+    ctx.extra["marshaler_runs"] = {"histories": len(pick), "accepted": acc,
+                                   "unmarshal_of_real_payloads": sum(1 for b in blocks.values() for e in b if e.get("ev") == "accept" and e.get("real"))}
+    byid = {s["id"]: s for s in pick}
+    for rj in rejects:
+        line = rj["info"].get("line", {})
+        if rj["id"] < 0:
+            continue        # digest table: reported by the pkg/rendezvous part
+        ctx.violation("OrbitDBMessageMarshaler breaks C17 at step %s: %s" % (rj["at"], json.dumps(line, sort_keys=True)[:400]),
+                      {"script": byid[rj["id"]], "marshaler": True, "observed": rj["events"], "rejected_line": line, "step": rj["at"]})
+
+
 def _realtime(ctx, scripts, blocks, n):
     """a handful of histories against the UNMODIFIED package in real time (1 s ticks, actions
     at +500 ms); each must look like its virtual-clock twin.  A disagreement is re-run once and
@@ -473,6 +513,9 @@ def _replay(ctx, rp, ov):
                 ctx.violation("digest / period rounding breaks C17", {"universe": rp["universe"], "rejected_line": rj["info"].get("line")})
         return _finish(ctx)
     sc = rp["script"]
+    if rp.get("marshaler"):
+        _marshaler(ctx, rewritten_sources(ctx), [sc], 1)
+        return _finish(ctx)
     events, _ = vf.run_driver(ctx, PKG, DRV, ov, [sc], "virtual")
     acc, rejects = vf.validate_blocks(ctx, MON, events, "replay", timeout=600)
     ctx.evaluations += 1
